@@ -623,9 +623,9 @@ func genDB(r *vh.Rand, big bool) hist {
 	}
 	large := 0
 	switch {
-	case !big && r.Chance(1, 8):
-		large = 1
-		n = r.Range(8, 14)
+	case !big && r.Chance(1, 30):
+		large = 3 // just above 4 KB (kept rare: every byte is a Gallina list element)
+		n = r.Range(10, 12)
 	case big && r.Chance(1, 4):
 		large = 2
 		n = r.Range(30, 60)
@@ -655,7 +655,9 @@ func genDB(r *vh.Rand, big bool) hist {
 		if big && r.Chance(1, 10) {
 			pl = r.Range(200, 3000)
 		}
-		if large == 1 { // data file well above the 4 KB of a bufio.Reader
+		if large == 3 {
+			pl = r.Range(420, 460)
+		} else if large == 1 { // data file well above the 4 KB of a bufio.Reader
 			pl = r.Range(300, 700)
 		} else if large == 2 { // above 64 KB
 			pl = r.Range(1500, 4000)
@@ -729,7 +731,11 @@ func genDB(r *vh.Rand, big bool) hist {
 		for i := len(keys) - 1; i >= 0; i-- {
 			ks = append(ks, keys[i])
 		}
-		for i := 0; i < len(keys)+3; i++ {
+		extra := len(keys) + 3
+		if !big && extra > 7 {
+			extra = 7
+		}
+		for i := 0; i < extra; i++ {
 			if len(keys) > 0 && !r.Chance(1, 4) {
 				k := keys[r.Intn(len(keys))]
 				ks = append(ks, k)
@@ -900,7 +906,7 @@ func main() {
 	rep.CaseInputs = []interface{}{}
 	rep.Rule = "databases: key length 1-16 (oracle-only runs also 32/64/118), 0-12 (0-60) records over a colliding byte alphabet, " +
 		"1 in 8 keys written twice, payloads 0-24 bytes (sometimes 200-3000), 1 in 4 compressed, 1 in 3 with a dbHeader; lookups = every written key + 2-5 absent keys " +
-		"(below, above, neighbours, shorter, longer, random); 4-8 crash cuts of the two files (no header, torn last record, torn header, both); " +
+		"(below, above, neighbours, shorter, longer, random), each on a fresh handle, plus a session of many lookups on ONE open handle (reverse write order, repeats, random order, absent keys in between; data files below 4 KB, above 4 KB and above 64 KB); 4-8 crash cuts of the two files (no header, torn last record, torn header, both); " +
 		"1 in 3 databases are written over the data file of a writer that died before Save at the same path (0..n+3 records + torn tail; crash cuts then sequential); block store: 1-6 blocks with 0-5 transactions, edge coin values, rewritten hashes, magic blocks at/off their starting round. " +
 		"non-trivial db = at least 2 distinct keys read back and at least one absent-key lookup and one crash cut whose Open failed and one that opened; " +
 		"non-trivial store = at least one block with transactions read back; distinct by full input"
